@@ -345,12 +345,22 @@ func Guards(b *ssa.BasicBlock) []Cond {
 		td := t.Dominates(b) && len(t.Preds) == 1
 		fd := f.Dominates(b) && len(f.Preds) == 1
 		if td && !fd {
-			out = append(out, Cond{ifi.Cond, true, ifi, InLoop(d) && !BlockReaches(t, d)})
+			out = append(out, Cond{ifi.Cond, true, ifi, isLoopHeader(d) && !BlockReaches(t, d)})
 		} else if fd && !td {
-			out = append(out, Cond{ifi.Cond, false, ifi, InLoop(d) && !BlockReaches(f, d)})
+			out = append(out, Cond{ifi.Cond, false, ifi, isLoopHeader(d) && !BlockReaches(f, d)})
 		}
 	}
 	return out
+}
+
+// isLoopHeader: d has a back-edge predecessor (a predecessor it dominates).
+func isLoopHeader(d *ssa.BasicBlock) bool {
+	for _, p := range d.Preds {
+		if d.Dominates(p) {
+			return true
+		}
+	}
+	return false
 }
 
 // Atom is a primitive fact derived from a condition: the expression X op Y holds.
@@ -788,4 +798,182 @@ func AllPathsReturnAvoiding(b *ssa.BasicBlock, avoid []ssa.Instruction) bool {
 	}
 	walk(b)
 	return ok
+}
+
+// ReachableCut reports whether target is reachable from fn's entry when the CFG edges for which
+// cut(from, succIndex) is true are removed.
+func ReachableCut(fn *ssa.Function, target ssa.Instruction, cut func(from *ssa.BasicBlock, succ int) bool) bool {
+	if len(fn.Blocks) == 0 {
+		return false
+	}
+	seen := map[*ssa.BasicBlock]bool{}
+	var walk func(b *ssa.BasicBlock) bool
+	walk = func(b *ssa.BasicBlock) bool {
+		if seen[b] {
+			return false
+		}
+		seen[b] = true
+		if b == target.Block() {
+			return true
+		}
+		for i, s := range b.Succs {
+			if cut(b, i) {
+				continue
+			}
+			if walk(s) {
+				return true
+			}
+		}
+		return false
+	}
+	return walk(fn.Blocks[0])
+}
+
+// CondEdge describes, for an If block whose condition is (a possibly negated) `pred(v)`, which
+// successor index is taken when pred holds.
+// BoolCondEdge: cond is call/value v or !v; returns (v, succIndexWhenTrue, ok).
+func BoolCondEdge(b *ssa.BasicBlock) (ssa.Value, int, bool) {
+	if len(b.Instrs) == 0 {
+		return nil, 0, false
+	}
+	ifi, ok := b.Instrs[len(b.Instrs)-1].(*ssa.If)
+	if !ok {
+		return nil, 0, false
+	}
+	v := ifi.Cond
+	idx := 0
+	for {
+		if u, ok := v.(*ssa.UnOp); ok && u.Op == token.NOT {
+			v = u.X
+			idx = 1 - idx
+			continue
+		}
+		break
+	}
+	return v, idx, true
+}
+
+// NilCondEdge: cond is `x == nil` or `x != nil`; returns (x, succIndexWhenNil, ok).
+func NilCondEdge(b *ssa.BasicBlock) (ssa.Value, int, bool) {
+	v, idx, ok := BoolCondEdge(b)
+	if !ok {
+		return nil, 0, false
+	}
+	bo, ok := v.(*ssa.BinOp)
+	if !ok || (bo.Op != token.EQL && bo.Op != token.NEQ) {
+		return nil, 0, false
+	}
+	var x ssa.Value
+	switch {
+	case IsNilConst(bo.Y):
+		x = bo.X
+	case IsNilConst(bo.X):
+		x = bo.Y
+	default:
+		return nil, 0, false
+	}
+	if bo.Op == token.NEQ {
+		idx = 1 - idx
+	}
+	return x, idx, true
+}
+
+// TruthOnlyIf checks a predicate function (e.g. a roster filter closure) : can it return a
+// possibly-true value on a path on which property P does NOT hold?  isP(v) says whether branch
+// condition v (negations already stripped) decides P and with which truth value P holds.
+// direct(v) says that returning v itself is equivalent to P (e.g. `return !t.IsLocked()`).
+// Returns the offending return instructions (empty = the function is true only if P).
+func TruthOnlyIf(fn *ssa.Function, isP func(v ssa.Value) (decides bool, holdsWhen bool), direct func(v ssa.Value) bool) []ssa.Instruction {
+	type edge struct {
+		b *ssa.BasicBlock
+		i int
+	}
+	cut := map[edge]bool{}
+	for _, b := range fn.Blocks {
+		if v, trueIdx, ok := BoolCondEdge(b); ok {
+			if dec, when := isP(v); dec {
+				if when {
+					cut[edge{b, trueIdx}] = true
+				} else {
+					cut[edge{b, 1 - trueIdx}] = true
+				}
+			}
+		}
+	}
+	// reachable blocks and the edges used
+	reach := map[*ssa.BasicBlock]bool{}
+	live := map[edge]bool{}
+	var walk func(b *ssa.BasicBlock)
+	walk = func(b *ssa.BasicBlock) {
+		if reach[b] {
+			return
+		}
+		reach[b] = true
+		for i, s := range b.Succs {
+			if cut[edge{b, i}] {
+				continue
+			}
+			live[edge{b, i}] = true
+			walk(s)
+		}
+	}
+	if len(fn.Blocks) > 0 {
+		walk(fn.Blocks[0])
+	}
+	var bad []ssa.Instruction
+	var possiblyTrue func(v ssa.Value, seen map[ssa.Value]bool) bool
+	possiblyTrue = func(v ssa.Value, seen map[ssa.Value]bool) bool {
+		if seen[v] {
+			return false
+		}
+		seen[v] = true
+		if direct != nil && direct(v) {
+			return false
+		}
+		switch x := v.(type) {
+		case *ssa.Const:
+			return x.Value != nil && x.Value.String() == "true"
+		case *ssa.Phi:
+			for i, e := range x.Edges {
+				pred := x.Block().Preds[i]
+				// is the edge pred->block live?
+				isLive := false
+				for si, s := range pred.Succs {
+					if s == x.Block() && reach[pred] && live[edge{pred, si}] {
+						isLive = true
+					}
+				}
+				if isLive && possiblyTrue(e, seen) {
+					return true
+				}
+			}
+			return false
+		case *ssa.UnOp:
+			if x.Op == token.MUL {
+				// load of a named-result cell: follow stores in reachable blocks
+				if al, ok := x.X.(*ssa.Alloc); ok && al.Referrers() != nil {
+					for _, r := range *al.Referrers() {
+						if st, ok := r.(*ssa.Store); ok && st.Addr == ssa.Value(al) && reach[st.Block()] {
+							if possiblyTrue(st.Val, seen) {
+								return true
+							}
+						}
+					}
+					return false
+				}
+			}
+		}
+		return true // unknown value: assume it can be true
+	}
+	for _, b := range fn.Blocks {
+		if !reach[b] {
+			continue
+		}
+		if r, ok := b.Instrs[len(b.Instrs)-1].(*ssa.Return); ok && len(r.Results) >= 1 {
+			if possiblyTrue(r.Results[0], map[ssa.Value]bool{}) {
+				bad = append(bad, r)
+			}
+		}
+	}
+	return bad
 }
